@@ -269,6 +269,9 @@ class FlowConfigParser(configparser.ConfigParser):
         args = kwargs.copy()
         if 'strict' not in args:
             args['strict'] = False
+        # VV: every option is read with raw=True; do not let set() reject a literal '%' (e.g. `date +%Y`)
+        if 'interpolation' not in args:
+            args['interpolation'] = None
         super(FlowConfigParser, self).__init__(defaults, dict_type, allow_no_value=allow_no_value, **args)
 
     def get(self, section, option, raw=True, vars=None):
